@@ -25,7 +25,7 @@ RULE = ("time grids (odd/even lengths 2..40, four sampling steps, zero / positiv
         "with_times-derived objects and Antenna.make_noise, against the currently published basis, a never-evaluated "
         "object given that basis, and the model given that basis; sample times as arrays, lists, tuples, Python ints and "
         "int arrays (1 s spacing), with_times given plain lists; bands of zero width; rms_voltage together with "
-        "temperature and resistance; a callable amplitude answering with one number (F19 for the FFT class); a derived "
+        "temperature and resistance; a callable amplitude answering with one number (repaired as F19); a derived "
         "object shifted in place while other handles stay live; a case is non-trivial when the basis is non-empty; "
         "distinct = distinct (class, grid, band, spec, uniqueness) tuples")
 LEVEL_TEXT = ("theorems (cosine-sum form of both classes, band membership, irfft = cosine sum for bins strictly between "
@@ -137,6 +137,8 @@ def construct(case):
     """-> noise object (numpy.random must already be patched or seeded)"""
     cls = classes()[case["cls"]]
     times = case["t0"] + np.arange(case["n"]) * case["dt"]
+    if case.get("pad") is not None:     # a left-padded grid of float products (k - pad)*dt, at or near t = 0
+        times = (np.arange(case["n"]) - case["pad"]) * case["dt"]
     kw = {}
     if case["rms"] is not None:
         kw["rms_voltage"] = case["rms"]
@@ -148,11 +150,23 @@ def construct(case):
                f_amplitude=amp_arg(case["spec"]), uniqueness_factor=case["uniq"], **kw), times
 
 
-def rand_case(run, cls=None, force=None):
+def artefact_windows(n, dt, pad):
+    """start indices k of contained windows whose leading buffer b = t_k - t_0 on the grid (j - pad)*dt has an exactly
+    integral float quotient b/dt but a non-zero float remainder b % dt (the two ways of counting buffer samples part)"""
+    times = (np.arange(n) - pad) * dt
+    out = []
+    for k in range(1, n - 1):
+        b = times[k] - times[0]
+        if b / dt == int(b / dt) and b % dt != 0:
+            out.append(k)
+    return out
+
+
+def rand_case(run, cls=None, force=None, dt=None):
     rng = run.rng
     cls = cls or rng.choice(["fft", "full"])
     n = rng.choice([2, 3, 7, 8, 16, 17, 31, 32, 40])
-    dt = rng.choice([0.5e-9, 1e-9, 0.2e-9, 0.37e-9])
+    dt = dt or rng.choice([0.5e-9, 1e-9, 0.2e-9, 0.37e-9])
     t0 = rng.choice([0.0, 3e-7, -1.3e-7, rng.uniform(-1, 1) * 1e-6])
     uniq = rng.choice([1, 1, 2, 3, 4, 0.5, 2.7])
     tform = rng.choice(["array", "array", "array", "list", "tuple"])
@@ -192,7 +206,8 @@ def rand_case(run, cls=None, force=None):
         if n * u > 100:
             uniq = 1
     spec = rng.choice([("const", 1.0), ("const", rng.uniform(0.2, 2.0)), ("affine", rng.uniform(0.5, 1.5), rng.uniform(0, 2)),
-                       ("affine1", rng.uniform(0.5, 1.5), rng.uniform(0, 2)), ("tape",), ("tape",)])
+                       ("affine1", rng.uniform(0.5, 1.5), rng.uniform(0, 2)), ("tape",), ("tape",),
+                       ("scalarfn", rng.uniform(0.3, 2.0))])
     rmode = rng.choice(["rms", "rms", "TR", "missing", "both"] if force is None else ["rms", "TR", "both"])
     case = {"cls": cls, "n": n, "dt": dt, "t0": t0, "uniq": uniq, "fmin": fmin, "fmax": fmax, "band": kind,
             "spec": list(spec), "rms": None, "T": None, "R": None, "tform": tform}
@@ -282,7 +297,7 @@ def regrid_values(nz, tt):
 
 def req_for(case, times, amp_tape, phase_tape, ts):
     spec = case["spec"]
-    if spec[0] == "const":
+    if spec[0] in ("const", "scalarfn"):
         st = "const " + fw.fl([spec[1]])
     elif spec[0] in ("affine", "affine1"):
         st = "affine " + fw.fl(spec[1:3])
@@ -459,36 +474,16 @@ def _oracle(inp):
         nz, times = construct(case)
     except ValueError:
         return out
-    except IndexError:
-        if case["spec"][0] == "scalarfn" and cls == "fft" and case["fmin"] <= 0 <= case["fmax"]:
-            out.append(("scalar-callable", "IndexError", "amplitudes as for the number %r" % case["spec"][1],
-                        "FFTThermalNoise cannot be built from a callable that answers an array with one number when the "
-                        "band contains DC", "F19"))
-            return out
-        raise
     n, dt = case["n"], case["dt"]
     if case["spec"][0] == "scalarfn":
-        if np.ndim(nz.amps) == 0:
-            if cls == "fft":
-                out.append(("scalar-callable", "amps of shape ()", "one amplitude per published frequency",
-                            "FFTThermalNoise publishes a 0-d amplitude for a callable that answers an array with one "
-                            "number", "F19"))
-                nz.amps = np.full(len(nz.freqs), float(nz.amps))     # what the waveform must still be built from
-                if len(nz.freqs) and not in_k4(case, nz):
-                    vv = np.array(nz.values)
-                    rr = cos_sum(nz, cls, times, times[0])
-                    if np.max(np.abs(vv - rr)) > 1e-9 * (float(np.max(np.abs(rr))) + 1e-300):
-                        out.append(("cos-sum", float(np.max(np.abs(vv - rr))), 0.0,
-                                    "values differ from the cosine sum with the callable's amplitude at every frequency", None))
-                return out
-            else:
-                out.append(("scalar-callable", "amps of shape ()", "one amplitude per published frequency",
-                            "published amplitudes are not one per frequency", None))
-                return out
+        # (repaired as F19) a callable answering an array with one number is an ordinary amplitude spec for both
+        # classes: one amplitude per published frequency, that number everywhere except DC
         want_amps = np.where(np.array(nz.freqs) == 0, 0.0, case["spec"][1])
-        if not np.array_equal(np.asarray(nz.amps, dtype=float), want_amps):
+        if np.shape(nz.amps) != np.shape(nz.freqs) or not np.array_equal(np.asarray(nz.amps, dtype=float), want_amps):
             out.append(("scalar-callable", [float(a) for a in np.atleast_1d(nz.amps)[:4]], [float(a) for a in want_amps[:4]],
-                        "a callable answering with one number does not give that amplitude at every frequency", None))
+                        "a callable answering with one number does not give that amplitude at every published frequency",
+                        None))
+            return out
     N = len(nz.freqs)
     k4 = in_k4(case, nz)
     amp_scale = nz.rms * (math.sqrt(2 / N) * float(np.sum(np.abs(nz.amps))) if N else 0.0)
@@ -583,6 +578,43 @@ def _oracle(inp):
         if np.max(np.abs(np.array(sub) - v[1:-1])) > tol:
             out.append(("absolute-time", float(np.max(np.abs(np.array(sub) - v[1:-1]))), 0.0,
                         "sub-window disagrees with the original at shared sample times", None))
+    # (3c) contained windows (with_times sets buffers): shared sample times carry the same values; also through the
+    #      antenna's noise master (make_noise on a window of the master's grid, full_waveform with and without a signal)
+    for k, m in inp.get("contained", []):
+        if k + m > n or m < 2:
+            continue
+        sub = np.array(nz.with_times(times[k:k + m]).values)
+        if len(sub) != m or np.max(np.abs(sub - v[k:k + m])) > tol:
+            i = int(np.argmax(np.abs(sub - v[k:k + m]))) if len(sub) == m else -1
+            out.append(("contained-window", [k, m, i, float(sub[i])], [k, m, i, float(v[k + i])],
+                        "with_times onto a contained window (samples %d..%d of the own grid, leading buffer %r, dt %r) "
+                        "does not reproduce the values at the shared sample times" % (k, k + m - 1, float(times[k] - times[0]), dt),
+                        None))
+            break
+    if inp.get("contained") and cls == "fft" and N and case["rms"] is not None:
+        from pyrex.antenna import Antenna
+        from pyrex.signals import Signal
+        np.random.seed(inp["seed"])
+        ant = Antenna([0.0, 0.0, -100.0], freq_range=(case["fmin"], case["fmax"]), noise_rms=case["rms"],
+                      unique_noise_waveforms=case["uniq"], noisy=True)
+        mv = np.array(ant.make_noise(times).values)          # creates the master on the padded grid
+        msc = 1e-9 * (float(np.max(np.abs(mv))) + 1e-300)
+        for k, m in inp["contained"]:
+            if k + m > n or m < 2:
+                continue
+            win = times[k:k + m]
+            a_ = np.array(ant.make_noise(win).values)
+            b_ = np.array(ant.full_waveform(win).values)
+            ant.signals.append(Signal(win[:max(2, m // 2)], np.zeros(max(2, m // 2)), Signal.Type.voltage))
+            c_ = np.array(ant.full_waveform(win).values)
+            ant.signals.clear()
+            for got_, lab in ((a_, "Antenna.make_noise(window)"), (b_, "Antenna.full_waveform(window)"),
+                              (c_, "Antenna.full_waveform(window) with a zero signal received")):
+                if len(got_) != m or np.max(np.abs(got_ - mv[k:k + m])) > msc:
+                    out.append(("contained-window", [lab, k, m, [float(x) for x in got_[:3]]],
+                                [lab, k, m, [float(x) for x in mv[k:k + 3]]],
+                                "%s differs from the noise master's values at the same absolute times" % lab, None))
+                    break
     # (3b) several live handles: a derived object is shifted in place; the object it was derived from, and objects
     #      derived later, still produce the basis waveform at absolute times
     if n >= 2:
@@ -726,8 +758,64 @@ def oracle(inp):
                  "the implementation raised where the property prescribes values (%s)" % where[:140], None)]
 
 
+def oracle_statistics(inp):
+    """default (Rayleigh) amplitudes: over several hundred frequencies and several random streams the mean square
+    amplitude is 1 and the mean square of the waveform over one common period is rms^2 (rms_voltage given, or
+    sqrt(k_B T R bandwidth)).  E[A^2] = 1, Var[A^2] = 1 for the nominal law, so the mean over M draws has standard
+    deviation 1/sqrt(M); the threshold of 5.4 sigma is passed by a correct tree with probability > 1 - 1e-7."""
+    out = []
+    cls = inp["cls"]
+    tot, cnt, ratios = 0.0, 0, []
+    n, dt, uniq, fmin, fmax = inp["n"], inp["dt"], inp["uniq"], inp["fmin"], inp["fmax"]
+    times = np.arange(n) * dt
+    for si, seed in enumerate(inp["seeds"]):
+        np.random.seed(seed)
+        kw = {"rms_voltage": inp["rms"]} if si % 2 == 0 else {"temperature": inp["T"], "resistance": inp["R"]}
+        nz = classes()[cls](times, (fmin, fmax), uniqueness_factor=uniq, **kw)
+        want = inp["rms"] if si % 2 == 0 else math.sqrt(1.380649e-23 * inp["T"] * inp["R"] * (fmax - fmin))
+        a = np.asarray(nz.amps, dtype=float)
+        tot += float(np.sum(a ** 2))
+        cnt += len(a)
+        if cls == "fft":      # one full period of the generated trace: the bins are exactly orthogonal on it
+            full = np.array(nz.with_times(times[0] + np.arange(uniq * n) * dt).values)
+        else:                 # one beat period 1/delta of the equally spaced frequencies, finely sampled
+            delta = (fmax - fmin) / len(a)
+            L = 4096
+            full = np.array(nz.with_times(np.arange(L) * (1.0 / (delta * L))).values)
+        ratios.append(float(np.mean(full ** 2)) / want ** 2)
+    sigma = 1.0 / math.sqrt(cnt)
+    if abs(tot / cnt - 1) > 5.4 * sigma:
+        out.append(("statistics", tot / cnt, 1.0, "mean square of the default (Rayleigh) amplitudes over %d draws is not 1 "
+                    "(%.1f sigma)" % (cnt, abs(tot / cnt - 1) / sigma), None))
+    mr = float(np.mean(ratios))
+    if abs(mr - 1) > 5.4 * sigma + 0.01:
+        out.append(("statistics", mr, 1.0, "mean square of the default-amplitude waveform over one period, averaged over %d "
+                    "streams, is not the requested rms^2 (rms_voltage / sqrt(k_B T R bandwidth))" % len(ratios), None))
+    return out
+
+
+def gen_statistics_input(run, cls):
+    rng = run.rng
+    return {"statistics": True, "cls": cls, "seeds": [rng.randrange(2 ** 31) for _ in range(8)], "n": 256, "dt": 1e-9,
+            "uniq": 5, "fmin": 1.0e8, "fmax": 4.5e8, "rms": rng.uniform(0.5, 2.0), "T": rng.uniform(200, 400),
+            "R": rng.uniform(20, 200), "case": {"cls": cls, "band": "statistics"}}
+
+
 def gen_oracle_input(run, i):
     rng = run.rng
+    if i % 7 == 3:
+        # decimal-fraction dt, grid of float products starting at or just left of t = 0, windows starting within the
+        # first samples - preferably where buffer/dt is integral in floating point while buffer % dt is not zero
+        dt = rng.choice([1e-9, 2e-9, 0.5e-9, 1.25e-9, 0.1e-9, 0.3e-9, 0.7e-9])
+        case = rand_case(run, force=rng.choice(["inside", "inside", "touch0", "straddle"]), dt=dt)
+        case.update(n=rng.choice([16, 17, 32, 40]), pad=rng.randint(0, 6), band="contained", tform="array")
+        if case["cls"] == "full":
+            case["uniq"] = 1
+        ks = artefact_windows(case["n"], dt, case["pad"])
+        picks = rng.sample(ks, min(3, len(ks))) + [rng.randint(1, 6)]
+        cont = [[k, rng.randint(2, case["n"] - k)] for k in picks if case["n"] - k >= 2]
+        return {"case": case, "seed": rng.randrange(2 ** 31), "shifts": [rng.randint(1, 5)], "regrids": [],
+                "contained": cont, "artefact_starts": ks[:8]}
     if i % 5 == 4:
         # full noise whose frequencies are multiples of a common delta
         n = rng.choice([8, 16, 17, 32])
@@ -770,6 +858,12 @@ def search(run, deep):
         report(run, inp, res)
         if len([v for v in run.violations if not v[1]]) >= 5:
             return
+    for rep in range(3 if deep else 1):
+        for cls in ("full", "fft"):
+            inp = gen_statistics_input(run, cls)
+            run.case(("oracle", "statistics", cls, rep))
+            run.count("oracle_statistics_" + cls)
+            report(run, inp, oracle_statistics(inp))
     if deep:
         # default amplitudes give the requested RMS on average: E[A^2] = 1 for the draws the source makes
         np.random.seed(run.rng.randrange(2 ** 31))
@@ -804,5 +898,8 @@ def replay(run, data):
     import pyrex  # noqa: F401
     if data.get("kind") == "rayleigh-moment":
         search(run, True)
+        return
+    if data["input"].get("statistics"):
+        report(run, data["input"], oracle_statistics(data["input"]))
         return
     report(run, data["input"], oracle(data["input"]))
